@@ -49,6 +49,12 @@ class Check(HCheck):
         sp.append(Space(Cfg("never"), [al.page(u, i % 3 == 0) for i, u in enumerate(core)], 6 if thorough else 5, name="order/core"))
         ll = al.long_lrus((75, 148, 149, 3, 74, 223) if thorough else (75, 148, 149, 74, 3))
         sp.append(Space(Cfg("never"), [al.page(u, i % 2 == 0) for i, u in enumerate(ll)], 6 if thorough else 5, name="order/long"))
+        # exhaustive small batch shapes (depth 1 from prepared states): every crawl batch with
+        # <= 2 sources x <= 2 targets and every link batch of <= 2 (thorough 3) links over 4 pages
+        P4 = [A, Ax, Axy, Ab]
+        prep = [al.R0, (al.page(Ax, True),), (al.page(Ax, True), al.page(A)), (al.page(Axy), al.page(Ax, True), al.page(Ab, True))]
+        sp.append(Space(Cfg("never"), al.all_crawl_batches(P4), 1, roots=prep, name="shapes/crawl"))
+        sp.append(Space(Cfg("never"), al.all_link_batches(P4, 3 if thorough else 2), 1, roots=prep[:3], name="shapes/links"))
         if thorough:
             l2 = [A + L.long_stem(n, f) for n, f in ((75, b"\xff"), (75, b"\x00"), (149, b"{"), (149, b"}"), (76, b"\x80"))]
             l2 += [l2[0] + L.long_stem(150, b"a")]
